@@ -317,7 +317,7 @@ fn run_stream(front: SocketAddr, frames: &[u8]) -> (&'static str, u32) {
         return ("silent", 2);
     }
     p.send(frames);
-    let fr = p.read_until(Duration::from_millis(2500), |f| {
+    let fr = p.read_until(Duration::from_millis(5000), |f| {
         f.iter().any(|x| (x.t == T_HEADERS && x.sid == 1) || (x.t == T_RST && x.sid == 1) || x.t == T_GOAWAY)
     });
     for x in &fr {
